@@ -36,7 +36,10 @@ def correspondence(ctx):
     for s_ in structured_strings(ctx, 600 if ctx.tier == 'quick' else 8000, ['filler_ascii', 'filler_2', 'filler_3', 'cased', 'cased', 'wide', 'wide', 'marks', 'marks', 'rtl', 'ltrish', 'ctx', 'hangul']):
         for prof_ in ('um', 'up'):
             cases.append(f'prof|{prof_}|enforce|f|b|{hexs(s_)}|')
-    cases += fuzz_cases(ctx, {0, 1, 5})      # coverage-guided search of the tree under check (only when the source changed / thorough)
+    for s_ in composition_pair_strings(ctx):
+        for prof_ in ('um', 'up'):
+            cases.append(f'prof|{prof_}|enforce|f|b|{hexs(s_)}|')
+    cases += fuzz_cases(ctx, {0, 1, 5, 12})      # coverage-guided search of the tree under check (only when the source changed / thorough)
     res = run_cases(cases, ctx.work)
     known = known_bidi(ctx)
 
